@@ -115,7 +115,7 @@ def gen_reader_cases(ctx, consts):
     def add(kind, enc, ver, low, chunks, parts, ops):
         cases.append((kind, "rd %s %s %d %s %s %s" % (enc, ver, low, chunks, spec_of(parts), " ".join(ops))))
 
-    n_target = 230 if not thorough else 12000
+    n_target = 230 if not thorough else 6000
     combos = []
     for cname, ctext in constructs:
         for enc in encs:
@@ -257,6 +257,39 @@ def doc_templates(consts, rng, thorough):
         yield ("malformed-utf16-trunc", [b], 4, False)
 
 
+def ext_templates(consts, rng, thorough):
+    """documents whose external DTD subset / external general entity carries the sliding construct:
+    yield (kind, doc bytes, ext parts, prolog_len of ext)"""
+    CB, RB = consts["kCharBufSize"], consts["kRawBufSize"]
+    out = []
+    for k in range(24 if not thorough else 300):
+        enc = rng.choice(["utf8", "utf16le", "latin1"])
+        codec = ENC[enc]
+        w = 2 if enc.startswith("utf16") else 1
+        decl = {"utf8": "<?xml version='1.0' encoding='UTF-8'?>", "utf16le": "﻿<?xml version='1.0' encoding='UTF-16'?>",
+                "latin1": "<?xml version='1.0' encoding='ISO-8859-1'?>"}[enc]
+        base = rng.choice([CB, RB // w, 2 * CB])
+        d = rng.randrange(-3, 4)
+        if rng.random() < 0.5:
+            # external general entity with text content
+            doc = b"<!DOCTYPE r [<!ENTITY x SYSTEM 'e.ent'>]><r>pre&x;post</r>"
+            cons = rng.choice(["é\r\n", "<c a='é'>t</c>", "<!-- c -->", "&#x20AC;&amp;", "<![CDATA[x]]>", "]]>", "</c>", "a\rb"])
+            npad = max(0, base - len(decl.replace("﻿", "")) + d)
+            parts = [decl.encode(codec), ("x".encode(codec), npad), cons.encode(codec), "tail".encode(codec)]
+            out.append(("ext-entity-" + enc, doc, parts, len(decl.encode(codec))))
+        else:
+            # external DTD subset: declarations after a long comment
+            doc = b"<!DOCTYPE r SYSTEM 'x.dtd'><r a='1'>&ge;<b/></r>"
+            cons = rng.choice(["<!ELEMENT r (#PCDATA|b)*>", "<!ATTLIST r a CDATA #IMPLIED é CDATA 'd'>", "<!ENTITY ge 'valé'>",
+                               "<!ENTITY % p '<!ELEMENT b EMPTY>'>%p;", "<![INCLUDE[<!ELEMENT b EMPTY>]]>", "<!ELEMENT b EMPTY"])
+            pre = decl + "<!--"
+            npad = max(0, base - len(pre.replace("﻿", "")) - 3 + d)
+            parts = [pre.encode(codec), ("x".encode(codec), npad), "-->".encode(codec), cons.encode(codec),
+                     "<!ENTITY ge 'g'><!ELEMENT b EMPTY><!ELEMENT r ANY>".encode(codec)]
+            out.append(("ext-dtd-" + enc, doc, parts, len(decl.encode(codec))))
+    return out
+
+
 def chunkings_for(rng, parts, prolog_len, consts, fill_fixed, n):
     """chunk specs for a document: 1 byte at a time, seeded random sizes, sizes straddling the construct"""
     CB, RB = consts["kCharBufSize"], consts["kRawBufSize"]
@@ -324,7 +357,10 @@ def run(ctx):
         reqs = r.get("requests") or [r["request"]]
         rc, impl, err = run_bin(xh, reqs, env=henv, timeout=60)
         ctx.note("replay impl: %s" % impl)
-        if reqs[0].startswith("rd "):
+        if reqs[0].startswith("rd ") and len(reqs) > 1:
+            if rc != 0 or len(set(impl)) != 1:
+                ctx.violation("chunk-dependence", dict(r, impl=impl))
+        elif reqs[0].startswith("rd "):
             rc2, model, _ = run_bin(xm, model_lines(fb_fixed, f1_fixed, reqs))
             model = model[3:]
             ctx.note("replay model: %s" % model)
@@ -355,6 +391,16 @@ def run(ctx):
             ctx.violation("F1", {"request": F1_WITNESS, "impl": w_impl, "rc": rc, "model_repaired": w_model,
                                  "what": "XMLReader::getName reads beyond fCharsAvail after the refresh at a trailing high "
                                          "surrogate (stale characters returned as a name / index overrun)"})
+    # the same look-ahead exists in getNCName (not modelled): on this input it must answer like getName
+    w_nc = F1_WITNESS.replace(" N ", " C ")
+    rc, nc_impl, _ = run_bin(xh, [w_nc], env=henv, timeout=20)
+    ctx.count()
+    if rc != 0 or nc_impl != [x.replace("N:", "C:") for x in w_model]:
+        if not f1_fixed:
+            ctx.known_finding("F1", "getNCName look-ahead beyond fCharsAvail: witness `%s` -> %s" % (w_nc, nc_impl[:1] or rc))
+        else:
+            ctx.violation("F1", {"request": w_nc, "impl": nc_impl, "rc": rc, "expected": [x.replace("N:", "C:") for x in w_model],
+                                 "what": "XMLReader::getNCName reads beyond fCharsAvail after the refresh at a trailing high surrogate"})
     fb_w = [("FFFE3C0061003E00E9003C002F0061003E00", "1"), ("EFBBBF3C613E783C2F613E", "2"),
             (hx(b"<?xml version='1.0' encoding='ISO-8859-1'?><a>\xe9\xe9</a>"), "7"),
             (hx(b"<a>" + b"x" * 100 + b"\xff" + b"yy</a>"), "50")]
@@ -528,6 +574,50 @@ def run(ctx):
     ctx.note("reader-level: %d requests, %d divergences, %d spec-checked, %.1fs" % (len(bulk), len(divergences), len(spec_idx),
                                                                                    time.time() - t0))
 
+    # ---- 1b. operations that are not modelled (getNCName, skippedStringLong, movePlainContentChars, skipIfQuote):
+    #          metamorphic form of the property -- the answers must not depend on the chunking of the same bytes
+    t1b = time.time()
+    CBc, RBc = consts["kCharBufSize"], consts["kRawBufSize"]
+    mm = []
+    for _ in range(60 if ctx.tier == "quick" else 1500):
+        enc = ctx.rng.choice(["utf8", "utf16le", "utf16be", "latin1"])
+        w = 2 if enc.startswith("utf16") else 1
+        base = ctx.rng.choice([CBc, 2 * CBc, RBc // w, 5])
+        npad = max(0, base + ctx.rng.randrange(-3, 4))
+        cons = ctx.rng.choice(["pfx:local-nam\u00e9 x", "a\U00020000\U00020001b:c ", "'quoted'", "plain text \u00e9 more<", "</elem-\u00e9nd>q", "\ud840 x", "nc\ud840"])
+        try:
+            cb = cons.encode(ENC[enc], "surrogatepass")
+        except UnicodeEncodeError:
+            continue
+        parts = [("x".encode(ENC[enc]), npad), cb, "tail".encode(ENC[enc])]
+        ops = ["G%d" % max(0, npad - ctx.rng.choice([0, 1, 2]))] + ctx.rng.choice([
+            ["C", "P", "g", "C", "G"], ["m", "P", "q", "m", "g", "m", "G"], ["l" + units_hex("</elem-\u00e9nd>"), "P", "G"],
+            ["q", "C", "q", "P", "G"], ["C", "c003A", "C", "P", "G"]])
+        grp = []
+        for ch in ["0"] + ctx.rng.sample(["1", "2.3", "7.1.4096", "1:4096", "%d:1" % (RBc - 1), "%d" % (CBc - 1), "4096"], 2):
+            grp.append("rd %s 10 100 %s %s %s" % (enc, ch, spec_of(parts), " ".join(ops)))
+        mm.append(grp)
+    flat = [r_ for g in mm for r_ in g]
+    rcm, mo, merr = run_bin(xh, flat, env=henv, timeout=600)
+    if rcm != 0 or len(mo) != len(flat):
+        ctx.violation("harness-crash", {"what": "harness crashed on unmodelled reader operations", "rc": rcm, "stderr": merr,
+                                        "request": flat[len(mo)] if len(mo) < len(flat) else None})
+    else:
+        k = 0
+        nbad = 0
+        for g in mm:
+            outs = mo[k:k + len(g)]
+            k += len(g)
+            ctx.count(len(g))
+            if len(set(outs)) != 1:
+                nbad += 1
+                if nbad <= 3:
+                    j = next(i for i in range(len(g)) if outs[i] != outs[0])
+                    ctx.violation("chunk-dependence", {"requests": [g[0], g[j]], "one_shot": outs[0], "chunked": outs[j],
+                                                       "what": "unmodelled reader operations answer differently for different "
+                                                               "read sizes of the same bytes"})
+        ctx.note("unmodelled operations, chunking metamorphic: %d groups, %d differing, %.1fs" % (len(mm), nbad, time.time() - t1b))
+
     # ---- 2. model-only sweep at small buffer sizes against the Spec (all chunkings of short strings) -----------
     t1 = time.time()
     small = ["set fill %d" % (1 if fb_fixed else 0), "set safe 1"]
@@ -578,6 +668,16 @@ def run(ctx):
             idx.append(len(dlines))
             dlines.append("doc %s file 0 %s" % (cfg, spec))
         groups.append((kind, idx, parts, cfg))
+    # external entities (external DTD subset, external general entity) delivered through the same chunkings
+    for kind, doc, eparts, plen in ext_templates(consts, ctx.rng, ctx.tier == "thorough"):
+        espec = spec_of(eparts)
+        cfg = ctx.rng.choice(["I1", "I0", "D1"])
+        idx = [len(dlines)]
+        dlines.append("doc %s mem 0 %s %s" % (cfg, hx(doc), espec))
+        for ch in chunkings_for(ctx.rng, eparts, plen, consts, fb_fixed, 3 if ctx.tier == "quick" else 6):
+            idx.append(len(dlines))
+            dlines.append("doc %s chunk %s %s %s" % (cfg, ch, hx(doc), espec))
+        groups.append((kind, idx, [doc], cfg))
     rc, dout, derr = run_bin(xh, dlines, env=henv, timeout=1500)
     if rc != 0 or len(dout) != len(dlines):
         ctx.violation("harness-crash", {"what": "document-level harness crashed or lost lines", "rc": rc, "stderr": derr,
@@ -631,6 +731,7 @@ def run(ctx):
         "mark and the start (constants regenerated from XMLReader.hpp), x 8 chunkings x 7 operation scripts, plus random "
         "small byte strings incl. ill-formed ones and long surrogate-pair runs; document level: 22 constructs x 4 encodings "
         "x 3 boundaries x 7 offsets (seeded subset in quick), each parsed one-shot from memory and through 3-8 chunkings "
-        "(1 byte at a time, random sizes, split just before the end), LocalFileInputSource and StdInInputSource; a case is "
+        "(1 byte at a time, random sizes, split just before the end), LocalFileInputSource and StdInInputSource, plus external "
+        "DTD subsets / external general entities carrying the construct and served through the same chunkings; a case is "
         "non-trivial when it raises an exception, returns a negative answer or normalises a line end; distinct by request")
     ctx.coverage["exhaustive"] = False
